@@ -917,7 +917,7 @@ const Family *find_family(const std::string &name, const std::string &tier)
     f.max_req    = tier == "quick" ? 2 : 3;
     f.max_depth  = tier == "quick" ? 4 : 5;
     f.max_dev    = 1;
-  } else if (name == "opts") {
+  } else if (name == "opts" || name == "opts-reconf") {
     // configuration sweep: every single toggle and every PAIR of toggles from a table of documented options over a
     // two-server base configuration, each explored with a small alphabet (pairwise coverage of the option space; the
     // other families fix a handful of hand-picked combinations and go deeper)
@@ -972,6 +972,11 @@ const Family *find_family(const std::string &name, const std::string &tier)
         f.cfgs.push_back(c);
       }
     f.req_menu   = { 0, 4, 2, 14, 12 }; // incl. a query whose callback cancels the channel and one whose callback starts a request
+    if (name == "opts-reconf") {
+      // the same configurations with completion callbacks that change the server list
+      f.name     = "opts-reconf";
+      f.req_menu = { 19, 20, 22, 0, 4 };
+    }
     f.replies    = { RK_DATA, RK_SERVFAIL, RK_TC };
     f.faults     = { FS_SEND_REFUSED, FS_RECV_RESET, FS_SOCKCB };
     f.fault_skips = { 0 };
